@@ -41,6 +41,9 @@ type Case struct {
 	// to it; Recv is then the receiver the model expects before the second call
 	Pre   string `json:"pre,omitempty"`
 	Recv0 any    `json:"recv0,omitempty"`
+	// three-step families ("arr3", "str3"): an earlier call M0(Args0) on the literal, then Pre, then the call
+	M0    string `json:"m0,omitempty"`
+	Args0 []Arg  `json:"args0,omitempty"`
 	// "afterwards" family ("aft"): the write performed after the call, and its tag
 	Write string `json:"write,omitempty"`
 	Tag   string `json:"tag,omitempty"`
@@ -59,9 +62,22 @@ func (c *Case) String() string {
 		return nestString(c)
 	}
 	if c.Pre != "" {
-		return "$r = " + lit(c.Recv0) + "; " + preSrc(c.Pre) + " $r" + strings.TrimPrefix(callSrc(c, atoms{}, true), lit(c.Recv))
+		first := ""
+		if c.M0 != "" {
+			first = "$r" + strings.TrimPrefix(callSrc(c.firstCall(), atoms{}, true), lit(c.Recv0)) + "; "
+		}
+		return "$r = " + lit(c.Recv0) + "; " + first + preSrc(c.Pre) + " $r" + strings.TrimPrefix(callSrc(c, atoms{}, true), lit(c.Recv))
 	}
 	return callSrc(c, atoms{}, true)
+}
+
+// firstCall is the earlier call of a three-step case, as a one-step case on the literal.
+func (c *Case) firstCall() *Case {
+	fam := "arr"
+	if c.Fam == "str3" {
+		fam = "str"
+	}
+	return &Case{Fam: fam, M: c.M0, Cell: c.M0, Recv: c.Recv0, Args: c.Args0}
 }
 
 func vArg(v V) Arg       { return Arg{K: "v", V: v} }
@@ -616,9 +632,17 @@ func callSrc(c *Case, at atoms, pretty bool) string {
 
 // ---- two-step family: one capacity-changing call, then every method x argument tuple ------------
 
+// preAtoms: the atoms the string steps are printed with (set once from the seed, before any case is built)
+var preAtoms = atomsFor(0)
+
 var preSteps = []string{"push1", "push2", "pop", "shift", "unshift1", "splice-shrink", "slice-copy", "reverse", "sort"}
 
 func preSrc(pre string) string {
+	for _, st := range strSteps {
+		if st == pre {
+			return strStepSrc(pre, preAtoms)
+		}
+	}
 	switch pre {
 	case "push1":
 		return "$r->push(9);"
